@@ -28,6 +28,15 @@ func rawFamily() *c02eng.Family {
 		Classes: cls,
 		Bad:     [][]byte{{0, 0, 0, 2, 0, 0}, {0, 0, 0, 9, 0, 0xff, 0xff, 0xff, 0xff}, {0, 0, 0, 6, 200, 1}},
 		Arg:     "x",
+		Relay: func() []byte {
+			return c02eng.FrameBytes(nil, func(m socket.Message) {
+				m.SetMtype(erpc.TypePush)
+				m.SetSeq(88)
+				m.SetServiceMethod("/relay/go")
+				m.SetBodyCodec('j')
+				m.SetBody([]byte(`"x"`))
+			})
+		},
 		Other: func() []byte {
 			return c02eng.FrameBytes(nil, func(m socket.Message) { m.SetMtype(9); m.SetSeq(77); m.SetServiceMethod("/x") })
 		},
@@ -103,8 +112,8 @@ func httpFamily() *c02eng.Family {
 			{"200-bad-gzip-body", "bad"},
 			{"bad-content-length", "bad"}, {"unknown-content-encoding", "bad"}, {"unsupported-status-code", "bad"},
 		},
-		Bad: [][]byte{[]byte("HTTP/1.1 200 OK\r\nno colon here\r\n\r\n"), []byte("GARBAGE\r\n\r\nmore garbage\r\n"), []byte("HTTP/1.1\r\n\r\n\r\n")},
-		Arg: "x",
+		Bad:       [][]byte{[]byte("HTTP/1.1 200 OK\r\nno colon here\r\n\r\n"), []byte("GARBAGE\r\n\r\nmore garbage\r\n"), []byte("HTTP/1.1\r\n\r\n\r\n")},
+		Arg:       "x",
 		OnlyFresh: map[string]string{"299-truncated-status-no-content-type": "299-truncated-status"},
 	}
 }
